@@ -19,7 +19,11 @@ def _get_story_offsets(all_stories: Optional[List[Element]]) -> Optional[Dict[st
         t = 0
         for story in all_stories:
             story_offsets[story.find('storyID').text] = t
-            t += _get_story_duration(story)
+            duration = _get_story_duration(story)
+            if duration is None:
+                # the offsets of the stories after this one are unknown
+                break
+            t += duration
         return story_offsets
 
 
